@@ -3,6 +3,6 @@ CONSTANTS
   Vary = {"sh", "shk"}
   Fns = {"Println"}
   Shs = {"-", "fmt"}
-  ScopeAware = FALSE
+  ScopeAware = TRUE
 INVARIANTS TypeOK Confluent ImportSound Export
 PROPERTIES Stable Terminates
